@@ -75,6 +75,8 @@ class StructShim:
         STATS["unpacks"] += 1
         typ = fmt[-1]
         mult = 1 if len(fmt) == 1 else sym_int(fmt[:-1])
+        if isinstance(mult, int) and mult == 0:
+            return ()                       # a zero-length read touches no byte
         ctx = Ctx.cur
         st = _z(start)
         mdl = ctx.get_model()
@@ -313,6 +315,79 @@ class Output:
                 else:
                     RL.write_concrete([_conc_rec(r) for r in rr], os.path.join(self.dir, fname))
         return self
+
+    # --- particles and sinks ------------------------------------------------
+    def add_particles(self, columns, npart):
+        """columns: list of (name, typ) with typ in d/i/b; npart: list of particle counts per cpu (concrete).
+        Payloads and the lengths of the five skipped header records are symbolic."""
+        m = self.m
+        self.part_columns = list(columns)
+        self.npart = list(npart)
+        self.part_vals = {}
+        for icpu, n in enumerate(npart):
+            for name, typ in columns:
+                if typ == "d":
+                    vals = [m.real(f"p{icpu}_{name}_{j}") for j in range(n)]
+                elif typ == "i":
+                    vals = [m.int(f"p{icpu}_{name}_{j}", lo=-1000, hi=1000) for j in range(n)]
+                else:
+                    vals = [m.int(f"p{icpu}_{name}_{j}", lo=-100, hi=100) for j in range(n)]
+                self.part_vals[(icpu, name)] = vals
+        self.part_header = [[m.int(f"p{icpu}_hdr{j}", lo=0, hi=(None if m.symbolic else 64)) for j in range(5)] for icpu in range(len(npart))]
+        return self
+
+    def build_particles(self):
+        m = self.m
+        num = str(self.nout).zfill(5)
+        RL.write_descriptor(self.dir, "part", [c[0] for c in self.part_columns], [c[1] for c in self.part_columns])
+        for icpu, n in enumerate(self.npart):
+            cols = [(name, typ, self.part_vals[(icpu, name)]) for name, typ in self.part_columns]
+            recs = RL.part_records(self.cfg, cols, n, self.part_header[icpu], self.F)
+            fname = f"part_{num}.out{icpu + 1:05d}"
+            if m.symbolic:
+                self.files[fname] = SymFile(recs, f"part_{icpu + 1}")
+                open(os.path.join(self.dir, fname), "wb").close()
+            else:
+                RL.write_concrete([_conc_rec(r) for r in recs], os.path.join(self.dir, fname))
+        return self
+
+    def add_sinks(self, columns, units_line, nsink, legacy=False):
+        """columns: names; units_line: list of unit expressions (one per column); values symbolic.
+        Concrete mode writes the CSV; symbolic mode keeps the header lines real and serves the data block through
+        the loadtxt stub (see sink_loadtxt)."""
+        m = self.m
+        self.sink_columns, self.sink_units, self.nsink = list(columns), list(units_line), nsink
+        self.sink_vals = [[m.real(f"sink{r}_{c}") for c in columns] for r in range(nsink)] if nsink and nsink > 0 else []
+        num = str(self.nout).zfill(5)
+        fname = os.path.join(self.dir, f"sink_{num}.csv")
+        self.sink_file = fname
+        if nsink is None:
+            return self                       # no sink file at all
+        with open(fname, "w") as f:
+            if nsink < 0:
+                return self                   # empty file
+            f.write(" # " + ",".join(columns) + "\n")
+            f.write(" # " + ",".join(units_line) + "\n")
+            for row in self.sink_vals:
+                if m.symbolic:
+                    f.write(",".join("0.0" for _ in row) + "\n")      # placeholder rows (shape only)
+                else:
+                    f.write(",".join(repr(float(v)) for v in row) + "\n")
+        return self
+
+    def sink_loadtxt(self, real_loadtxt):
+        """np.loadtxt by its documented contract for the sink file: a float array (nsink, ncol), or (ncol,) when
+        there is a single data row -- with symbolic entries."""
+        from symx.arr import sarray
+        out = self
+
+        def loadtxt(fname, *a, **k):
+            if os.path.abspath(str(fname)) == os.path.abspath(out.sink_file) and out.m.symbolic and k.get("dtype", float) is not str:
+                rows = [[v for v in row] for row in out.sink_vals]
+                arr = sarray(rows if len(rows) != 1 else rows[0], "float64")
+                return arr
+            return real_loadtxt(fname, *a, **k)
+        return loadtxt
 
     # --- oracle -----------------------------------------------------------
     def leaves(self, lmax=None):
